@@ -10,6 +10,7 @@ import (
 	"path/filepath"
 	"sort"
 	"strings"
+	"sync"
 
 	"golang.org/x/tools/go/packages"
 	"golang.org/x/tools/go/ssa"
@@ -26,19 +27,20 @@ const (
 )
 
 type Engine struct {
-	repo     string
-	verif    string
-	fset     *token.FileSet
-	prog     *ssa.Program
-	pkgs     map[string]*ssa.Package
-	tpkgs    map[string]*packages.Package
-	specs    *SpecSet
-	funcs    map[string]*ssa.Function // by pkgShort.key
-	modCache map[*ssa.Function]*modSet
-	named    []types.Type
-	kinds    []kindType
-	srcHash  map[string]string
-	overlay  map[string][]byte
+	repo       string
+	verif      string
+	fset       *token.FileSet
+	prog       *ssa.Program
+	pkgs       map[string]*ssa.Package
+	tpkgs      map[string]*packages.Package
+	specs      *SpecSet
+	funcs      map[string]*ssa.Function // by pkgShort.key
+	modCache   map[*ssa.Function]*modSet
+	modMu      sync.Mutex
+	named      []types.Type
+	kinds      []kindType
+	srcHash    map[string]string
+	overlay    map[string][]byte
 	ghostHeaps map[string]string
 }
 
@@ -160,7 +162,7 @@ func loadEngine(repo, verif string) (*Engine, error) {
 	return e, nil
 }
 
-func (e *Engine) kindTypes() []kindType    { return e.kinds }
+func (e *Engine) kindTypes() []kindType       { return e.kinds }
 func (e *Engine) allNamedTypes() []types.Type { return e.named }
 
 func (e *Engine) fnPkg(fn *ssa.Function) *ssa.Package {
@@ -334,4 +336,9 @@ func (e *Engine) heapSortByName(c *FnCtx, name string) (string, bool) {
 		return srt, true
 	}
 	return "", false
+}
+
+func (e *Engine) ownPkgFn(fn *ssa.Function) bool {
+	pk := e.fnPkg(fn)
+	return pk != nil && e.ownPkg(pk.Pkg.Path())
 }
